@@ -267,7 +267,7 @@ func Main(m *testing.M, meta Meta) {
 	// ... and a memory limit for the Go runtime, which is what grol's own allocation guard measures against: generated
 	// programs that double a string in a loop are refused by it instead of filling the address space.
 	if os.Getenv("GOMEMLIMIT") == "" {
-		debug.SetMemoryLimit(2 << 30)
+		debug.SetMemoryLimit(256 << 20)
 	}
 	var rl syscall.Rlimit
 	if syscall.Getrlimit(syscall.RLIMIT_AS, &rl) == nil && (rl.Cur == ^uint64(0) || rl.Cur > 10<<30) {
